@@ -316,10 +316,16 @@ func C17(run *core.Run) {
 		}
 	}
 	c17AllowDeny(run, conc, ev, distinct)
+	// max_subscriptions of the NIP-11 chain (stateful: judged with the Quota specification)
+	nh := 60
+	if run.Thorough() {
+		nh = 600
+	}
+	quotaThroughNIP11(run, conc, nh, 7, "c17-quota")
 	run.Set("rule", "Limits.tla defines Decide for the seven stateless limit middlewares, StackDecide for stacks and Chain for NIP-11 limitation blocks; TLC enumerates every middleware x limit {1,2,5} (times 60/3600 s) x message type x size below/at/above (timestamps +-5 s around the moving boundary), every ordered pair of four middlewares x messages violating none/one/both, and every subset of the six stateless NIP-11 limits (and no block, nil document) x messages (quick: a seeded quarter); each case runs through the real concurrent wrapper around a recording handler, the message embedded between two unrelated client messages while the handler emits server messages: downstream receives exactly the non-rejected messages unchanged, the client exactly the handler's messages in order plus one rejection of the right type and id. Allow/deny filters are judged by TLC (Nostr!MatchesAny). distinct_nontrivial = distinct rejecting cases")
 	run.Set("evaluations", run.Get("sessions"))
 	run.Set("distinct_nontrivial", distinct.Len())
-	run.Assume = append(run.Assume, "created_at cases keep 5 s distance from the moving boundary", "max_subscriptions of the NIP-11 chain is covered by C18 (stateful)")
+	run.Assume = append(run.Assume, "created_at cases keep 5 s distance from the moving boundary", "max_subscriptions of the NIP-11 chain is judged with the Quota specification of C18 on sampled histories")
 }
 
 func describeMsgs(ms []mocrelay.ClientMsg) string {
